@@ -57,7 +57,57 @@ func encBox(b Box) []byte {
 
 // fileSkeleton builds a concrete file through the public constructors. It returns the bytes and
 // the expected grouping: number of fragments per media segment.
+// fileTwoTrackEnc: a clear video track (id 1) and a cenc-protected audio track (id 2, 8-byte IVs in
+// its tenc) with one multi-track fragment whose second traf carries a senc box. The protection
+// parameters of a traf must be looked up through that traf's own track id.
+func fileTwoTrackEnc() ([]byte, []int) {
+	init := CreateEmptyInit()
+	init.AddEmptyTrack(90000, "video", "und")
+	init.AddEmptyTrack(48000, "audio", "und")
+	if err := init.Moov.Traks[1].SetAACDescriptor(2, 48000); err != nil {
+		panic("harness: SetAACDescriptor")
+	}
+	stsd := init.Moov.Traks[1].Mdia.Minf.Stbl.Stsd
+	ase := stsd.Children[0].(*AudioSampleEntryBox)
+	ase.SetType("enca")
+	sinf := &SinfBox{}
+	sinf.AddChild(&FrmaBox{DataFormat: "mp4a"})
+	sinf.AddChild(&SchmBox{SchemeType: "cenc", SchemeVersion: 65536})
+	schi := &SchiBox{}
+	schi.AddChild(&TencBox{Version: 0, DefaultIsProtected: 1, DefaultPerSampleIVSize: 8, DefaultKID: UUID{1, 2, 3, 4, 5, 6, 7, 8, 9, 10, 11, 12, 13, 14, 15, 16}})
+	sinf.AddChild(schi)
+	ase.AddChild(sinf)
+	var ib bytes.Buffer
+	if err := init.Encode(&ib); err != nil {
+		panic("harness: init encode")
+	}
+	out := append([]byte{}, ib.Bytes()...)
+	f, err := CreateMultiTrackFragment(1, []uint32{1, 2})
+	if err != nil {
+		panic("harness: CreateMultiTrackFragment")
+	}
+	for k := 0; k < 2; k++ {
+		_ = f.AddFullSampleToTrack(FullSample{Sample: Sample{Flags: SyncSampleFlags, Dur: 3000, Size: 2}, DecodeTime: uint64(3000 * k), Data: []byte{0x10, byte(k)}}, 1)
+		_ = f.AddFullSampleToTrack(FullSample{Sample: Sample{Flags: SyncSampleFlags, Dur: 1024, Size: 3}, DecodeTime: uint64(1024 * k), Data: []byte{0x20, byte(k), 7}}, 2)
+	}
+	senc := CreateSencBox()
+	for k := 0; k < 2; k++ {
+		_ = senc.AddSample(SencSample{IV: []byte{9, 8, 7, 6, 5, 4, 3, byte(k)}})
+	}
+	_ = f.Moof.Trafs[1].AddChild(senc)
+	seg := NewMediaSegment()
+	seg.AddFragment(f)
+	var sb bytes.Buffer
+	if err := seg.Encode(&sb); err != nil {
+		panic("harness: segment encode: " + err.Error())
+	}
+	return append(out, sb.Bytes()...), []int{1}
+}
+
 func fileSkeleton(kind string) ([]byte, []int) {
+	if kind == "2trenc" {
+		return fileTwoTrackEnc()
+	}
 	var out []byte
 	init := fileInit(1, kind != "plain")
 	var ib bytes.Buffer
